@@ -209,6 +209,9 @@ func (c *aeadCrypter) Decrypt(rand io.Reader, ciphertext, additionalData []byte,
 	} else if !ok {
 		return nil, fmt.Errorf("missing expected IV unprotected header")
 	}
+	if len(nonce) != c.AEAD.NonceSize() {
+		return nil, fmt.Errorf("IV must be %d bytes, got %d", c.AEAD.NonceSize(), len(nonce))
+	}
 
 	return c.AEAD.Open(ciphertext[:0], nonce, ciphertext, additionalData)
 }
@@ -311,6 +314,9 @@ func (c *ctrCrypter) Decrypt(rand io.Reader, ciphertext, additionalData []byte, 
 	} else if !ok {
 		return nil, fmt.Errorf("IV not included in header")
 	}
+	if len(iv) != c.Cipher.BlockSize() {
+		return nil, fmt.Errorf("IV must be %d bytes, got %d", c.Cipher.BlockSize(), len(iv))
+	}
 
 	plaintext = ciphertext
 	ctr := cipher.NewCTR(c.Cipher, iv)
@@ -382,13 +388,17 @@ func (c *cbcCrypter) Decrypt(rand io.Reader, ciphertext, additionalData []byte, 
 	} else if !ok {
 		return nil, fmt.Errorf("IV not included in header")
 	}
+	if len(iv) != c.Cipher.BlockSize() {
+		return nil, fmt.Errorf("IV must be %d bytes, got %d", c.Cipher.BlockSize(), len(iv))
+	}
+	if len(ciphertext) == 0 || len(ciphertext)%c.Cipher.BlockSize() != 0 {
+		return nil, fmt.Errorf("ciphertext length must be a positive multiple of the block size")
+	}
 
 	plaintext = ciphertext
 	cbc := cipher.NewCBCDecrypter(c.Cipher, iv)
 	cbc.CryptBlocks(plaintext, ciphertext)
-	plaintext = unpad(plaintext)
-
-	return plaintext, err
+	return unpad(plaintext, c.Cipher.BlockSize())
 }
 
 // PKCS#7 padding
@@ -403,7 +413,18 @@ func pad(b []byte, blockSize int) []byte {
 }
 
 // PKCS#7 padding
-func unpad(b []byte) []byte {
+func unpad(b []byte, blockSize int) ([]byte, error) {
+	if len(b) == 0 {
+		return nil, fmt.Errorf("invalid padding")
+	}
 	padSize := int(b[len(b)-1])
-	return b[:len(b)-padSize]
+	if padSize == 0 || padSize > blockSize || padSize > len(b) {
+		return nil, fmt.Errorf("invalid padding")
+	}
+	for _, p := range b[len(b)-padSize:] {
+		if int(p) != padSize {
+			return nil, fmt.Errorf("invalid padding")
+		}
+	}
+	return b[:len(b)-padSize], nil
 }
